@@ -179,6 +179,8 @@ func runC20(c *Ctx, tier string) {
 			c.OK("C20-R1", "(*runtime/sam/op/fuse.Fuser).Read", ns.Pos(), "ConstShaper(uberSchema.Type(), Cast|Fill|Order)")
 		}
 	}
+	runFuseSpillSameContext(c, "C20-X1")
+	runFuseRestartsPerStream(c, "C20-L1")
 }
 
 func init() {
